@@ -107,7 +107,7 @@ static void * F_other(void * arg) {
 #define INR(a, b)    ((a) <= g_w && g_w < (b))
 /* instances of the lemma  x < y && s >= 0 ==> x*s + s <= y*s  (job c17.lemma.mono); operands bounded: no overflow */
 #define MONO1(x, y, s) ((x) < (y) ==> PROD(x, s) + (long)(s) <= PROD(y, s))
-#define MONO(x, y, s)  ((SMALLN(x) && SMALLN(y) && SMALLS(s)) ==> (MONO1(x, y, s) && MONO1(y, x, s)))
+#define MONO(x, y, s)  ((SMALLN(x) && SMALLN(y) && SMALLS(s)) ==> (MONO1(x, y, s) && MONO1(y, x, s) && ((x) == (y) ==> PROD(x, s) == PROD(y, s))))   /* last: congruence, a tautology spelled out for the SAT solver */
 /* the argument block of a call of aux describes the universe and a non-empty sub-range */
 #define BLOCK_OK(m) \
   (MA(m)->ids == g_ids && MA(m)->attrs == g_attrs && MA(m)->args == (void *)ARGS && MA(m)->results == g_res && \
